@@ -9,6 +9,8 @@
  *     A <path>      API job file: first line "<degree>", then lines "<i> <re> <im>" where a
  *                   part equal to NULL means a NULL pointer -> mps_monomial_poly_set_coefficient_s
  *     R <string>    mps_utils_build_equivalent_rational_string on the rest of the line (verbatim)
+ *     B <string>    build_equivalent_rational_string (common/inline-poly-parser.c) on the rest of the line:
+ *                   prints  ERS [<string>] <exponent> <sign>   or RESULT null, then CTXERR 0|1
  * stdout per job:
  *     BEGIN <job line>
  *     RESULT ok | RESULT error <message on one line>
@@ -217,6 +219,19 @@ int main (int argc, char **argv)
           else printf ("RESULT null\n");
           printf ("CTXERR %d\n", mps_context_has_errors (ctx) ? 1 : 0);
           mps_context_free (ctx);
+        }
+      else if (mode == 'B')
+        {
+          /* one context for all B jobs (creating one starts a thread pool); renewed after it has recorded an error */
+          static mps_context *bctx = NULL;
+          long int ex = 0; int sign = 1;
+          char *r;
+          if (!bctx) bctx = mps_context_new ();
+          r = build_equivalent_rational_string (bctx, arg, &ex, &sign);
+          if (r) { printf ("RESULT ok\nERS [%s] %ld %d\n", r, ex, sign); free (r); }
+          else printf ("RESULT null\n");
+          printf ("CTXERR %d\n", mps_context_has_errors (bctx) ? 1 : 0);
+          if (mps_context_has_errors (bctx)) { mps_context_free (bctx); bctx = NULL; }
         }
       else if (mode == 'F' || mode == 'T' || mode == 'S')
         {
